@@ -8,7 +8,7 @@
 //       t        go TellGrain(G, msg)            (returns when the handler answered)
 //       pill     go TellGrain(G, PoisonPill)     (what poisonAllGrains enqueues at shutdown)
 //       pass     go process.passivationTry()     (what the passivation manager goroutine runs)
-//       probe    -> m<in map>a<active>o<onPoisonPill>d<dispatch>q<mailbox length>
+//       probe    -> m0 (no process registered) | m1a<active>o<onPoisonPill>d<dispatch>q<mailbox length>
 // Output:  <result per op> | LOG <hook events kind@goroutine/via#instance> | FIN <probe>
 // Events: actB actE rcvB rcvE deaB deaE; `#k` is the grain INSTANCE (Go object) the hook ran on.
 package main
@@ -188,10 +188,13 @@ func (e *c31env) stable() bool {
 	return busy <= parkedTurns
 }
 
+// probe reports the process that is registered in the grain map right now (m1 + its flags), or m0:
+// a process that is no longer registered has no stable identity for the harness (it may have come
+// and gone between two polls), so nothing else is reported about it.
 func (e *c31env) probe() string {
 	r, inMap := actor.VerifGrainLookup(e.sys, e.id)
 	if !inMap {
-		r = e.cur()
+		return "m0"
 	}
 	a, o, d, q := r.State()
 	b := func(x bool) string {
@@ -200,7 +203,7 @@ func (e *c31env) probe() string {
 		}
 		return "0"
 	}
-	return "m" + b(inMap) + "a" + b(a) + "o" + b(o) + "d" + strconv.Itoa(int(d)) + "q" + strconv.FormatInt(q, 10)
+	return "m1a" + b(a) + "o" + b(o) + "d" + strconv.Itoa(int(d)) + "q" + strconv.FormatInt(q, 10)
 }
 
 func runC31(line string) string {
